@@ -40,6 +40,19 @@ import (
 
 type ctxKeyT string
 
+// customCtx is a context implementation from outside the standard library: the context package cannot link such a
+// parent into its own tree and starts a goroutine to watch it instead
+type customCtx struct{ context.Context }
+
+// Value hides the context package's private "which cancelCtx am I" key (a *int), so that the package treats this
+// context as foreign instead of seeing through the embedding
+func (c customCtx) Value(key any) any {
+	if _, private := key.(*int); private {
+		return nil
+	}
+	return c.Context.Value(key)
+}
+
 const verifKey ctxKeyT = "verif-key"
 
 // hSpec: what the scripted transport does for one attempt (Coq: attempt_result).
@@ -163,8 +176,8 @@ type httpCase struct {
 	Level    string // rt client
 	BodyKind string // None Seeker Stream
 	Body     string
-	ReqCtx   string // Background TODO Cancellable Values Deadline
-	ExecCtx  string // Background Cancellable
+	ReqCtx   string // Background TODO Cancellable Values Deadline Custom CustomDone
+	ExecCtx  string // Background Cancellable Custom
 	Stack    string // retry retry+timeout retry+breaker fallback+retry
 }
 
@@ -209,9 +222,12 @@ func runHTTPCase(t *testing.T, c httpCase) (o httpObs) {
 		}
 		ex := failsafe.NewExecutor[*http.Response](pols...)
 		var execCancel context.CancelFunc = func() {}
-		if c.ExecCtx == "Cancellable" {
+		if c.ExecCtx == "Cancellable" || c.ExecCtx == "Custom" {
 			var ectx context.Context
 			ectx, execCancel = context.WithCancel(context.Background())
+			if c.ExecCtx == "Custom" {
+				ectx = customCtx{ectx}
+			}
 			ex = ex.WithContext(ectx)
 		}
 		ctx := context.Background()
@@ -225,6 +241,13 @@ func runHTTPCase(t *testing.T, c httpCase) (o httpObs) {
 			ctx = context.WithValue(ctx, verifKey, "v")
 		case "Deadline":
 			ctx, reqCancel = context.WithDeadline(context.WithValue(ctx, verifKey, "v"), t0.Add(100*time.Hour))
+		case "Custom":
+			ctx, reqCancel = context.WithCancel(ctx)
+			ctx = customCtx{ctx}
+		case "CustomDone": // the request's context is already done when the call is made
+			ctx, reqCancel = context.WithCancel(ctx)
+			reqCancel()
+			ctx = customCtx{ctx}
 		}
 		var body io.Reader
 		switch c.BodyKind {
@@ -306,7 +329,7 @@ func errKindHTTP(err error) string {
 
 func genHTTPCase(r *Rng) httpCase {
 	c := httpCase{Level: Pick(r, []string{"rt", "client"}), BodyKind: Pick(r, []string{"None", "Seeker", "Stream", "Stream"}),
-		ReqCtx: Pick(r, []string{"Background", "TODO", "Cancellable", "Values", "Deadline"}), ExecCtx: Pick(r, []string{"Background", "Background", "Cancellable"}),
+		ReqCtx: Pick(r, []string{"Background", "TODO", "Cancellable", "Values", "Deadline", "Custom"}), ExecCtx: Pick(r, []string{"Background", "Background", "Cancellable", "Custom"}),
 		Stack: Pick(r, []string{"retry", "retry", "retry+timeout", "retry+breaker", "fallback+retry"})}
 	c.Body = strings.Repeat("payload-", Pick(r, []int{0, 1, 8192, 131072}))
 	if c.BodyKind == "None" {
@@ -499,6 +522,10 @@ type grpcObs struct {
 }
 
 func runGRPCClient(t *testing.T, codesScript []int, withTimeout bool) (o grpcObs) {
+	return runGRPCClientCtx(t, codesScript, withTimeout, false)
+}
+
+func runGRPCClientCtx(t *testing.T, codesScript []int, withTimeout bool, custom bool) (o grpcObs) {
 	defer func() {
 		if x := recover(); x != nil {
 			o.Leak = fmt.Sprint(x)
@@ -512,13 +539,18 @@ func runGRPCClient(t *testing.T, codesScript []int, withTimeout bool) (o grpcObs
 		}
 		ic := failsafegrpc.NewUnaryClientInterceptor[any](pols...)
 		ctx := metadata.AppendToOutgoingContext(context.Background(), "k", "v")
+		if custom { // a live caller context of a non-standard-library type
+			cctx, ccancel := context.WithCancel(ctx) // stays alive: a server handling many calls on one long-lived context
+			_ = ccancel
+			ctx = customCtx{cctx}
+		}
 		reply := new(string)
 		o.ArgsOK, o.MDSeen = true, true
 		invoker := func(ictx context.Context, method string, req, rep any, cc *grpc.ClientConn, opts ...grpc.CallOption) error {
 			i := o.Calls
 			o.Calls++
-			if method != "/svc/M" || req.(string) != "request" || rep != any(reply) {
-				o.ArgsOK = false
+			if method != "/svc/M" || req.(string) != "request" || rep != any(reply) || len(opts) != 2 {
+				o.ArgsOK = false // incl. the caller's per-call options
 			}
 			if md, ok := metadata.FromOutgoingContext(ictx); !ok || len(md.Get("k")) != 1 {
 				o.MDSeen = false
@@ -537,7 +569,8 @@ func runGRPCClient(t *testing.T, codesScript []int, withTimeout bool) (o grpcObs
 				return status.Error(codes.Code(c), "scripted")
 			}
 		}
-		err := ic(ctx, "/svc/M", "request", reply, nil, invoker)
+		var hdr, trl metadata.MD
+		err := ic(ctx, "/svc/M", "request", reply, nil, invoker, grpc.Header(&hdr), grpc.Trailer(&trl))
 		switch {
 		case err == nil:
 			o.ErrCode = -1
@@ -602,6 +635,7 @@ func driveAdapters(t *testing.T, prop string) {
 	rng := NewRng(envSeed())
 	if prop == "C19" {
 		driveCoreLeaks(t, w, rng)
+		driveCustomCtxLeaks(t, w)
 	}
 	n := 260
 	if envTier() == "thorough" {
@@ -822,6 +856,34 @@ func leakOf(f func()) (leak string) {
 	}()
 	f()
 	return ""
+}
+
+// adapters with contexts of a non-standard-library type: whatever the call returns, nothing may be left behind
+func driveCustomCtxLeaks(t *testing.T, w *CaseWriter) {
+	for _, rc := range []string{"Custom", "CustomDone"} {
+		for _, ec := range []string{"Custom", "Cancellable", "Background"} {
+			for _, stack := range []string{"retry", "retry+timeout"} {
+				for _, script := range [][]hSpec{{{Status: 200, RetryAfter: -1, Body: "b"}}, {{Status: 503, RetryAfter: -1, Body: "b"}, {Status: 200, RetryAfter: -1, Body: "b"}}} {
+					c := httpCase{Script: script, Level: "rt", BodyKind: "None", ReqCtx: rc, ExecCtx: ec, Stack: stack}
+					o := runHTTPCase(t, c)
+					leak := o.Leak
+					w.Add(func(id int) string { return fmt.Sprintf("CaseCore %d 3 %s", id, gBool(leak != "")) },
+						map[string]any{"scenario": "HTTP adapter, custom context types", "request_context": rc, "executor_context": ec, "stack": stack, "attempts": o.Attempts, "leak": leak},
+						true, fmt.Sprint("customctx", rc, ec, stack, len(script)))
+					w.Stat("custom_ctx_http")
+				}
+			}
+		}
+	}
+	for _, wt := range []bool{false, true} {
+		for _, sc := range [][]int{{-1}, {14, -1}, {5}} {
+			o := runGRPCClientCtx(t, sc, wt, true)
+			leak := o.Leak
+			w.Add(func(id int) string { return fmt.Sprintf("CaseCore %d 4 %s", id, gBool(leak != "")) },
+				map[string]any{"scenario": "gRPC client interceptor, custom caller context", "codes_script": sc, "with_timeout": wt, "leak": leak}, true, fmt.Sprint("customctx-grpc", sc, wt))
+			w.Stat("custom_ctx_grpc")
+		}
+	}
 }
 
 func driveCoreLeaks(t *testing.T, w *CaseWriter, rng *Rng) {
